@@ -2164,6 +2164,7 @@ var rpcDirected = []string{
 	"1pHcorrupt:2:7:pHwhich/1,pB0,lB",                                                 // an unknown message whose pointer is out of bounds: the echo cannot be built; the next Bootstrap is answered
 	"1pHcorrupt:2:12:pHwhich/1,pB0,pC1:e0:0",                                          // … a far pointer into a segment that does not exist
 	"1pB0,pHcorrupt:2:7:pJ,pC1:e0:0,lB",
+	"0lB,pRQ0:boot:s1,lS0:0,lr0,lB,pRQ0:boot:s1,lR1,lB,pRQ0:boot:s1,fG,lC2:0,pRQ0:ok,pRQ0:ok,lR2", // the Shutdown of a client of an earlier entry runs after the entry was dropped and created again
 	"1lB,fH,pRQ0:boot:s1,lB,fG,pRQ0:boot:s1",                                         // a new question while the Return's Finish is still to be sent
 	"1lB,lB,pRQ0:boot:s1,lS0:0,lr0,pRQ0:boot:s1,fG,lR1",                               // a reference to an import arrives while its last handle is being released
 	"1lB,lB,pRQ0:boot:s1,lS0:0,lr0,pRQ0:boot:s1,lR1,fG",                               // … and the newer client goes away first
